@@ -47,7 +47,7 @@ H = [
          api=("decode_cbor", _bytes_with_len(9))),
     dict(name="c11_l1_two_byte_simple", props=["C11"], tier="quick", cost=2,
          unit=[CV + "::decode_value::<&[u8]>"], bound="`f8 xx`, xx symbolic < 32", stubs=[],
-         finding="KF-C11-two-byte-simple", api=("decode_cbor_strict", lambda vals: {"bytes": [0xf8] + _u8s(vals, 0, 1)})),
+         api=("decode_cbor_strict", lambda vals: {"bytes": [0xf8] + _u8s(vals, 0, 1)})),
     dict(name="c11_l1_tag", props=["C11"], tier="quick", cost=120, timeout_quick=900,
          unit=[CV + "::decode_value::<&[u8]> (one level of recursion)"],
          bound="10 symbolic bytes, symbolic length 0..=10, first head a tag (1..=9 head bytes) followed by one item head; unwind 3",
@@ -70,6 +70,12 @@ H = [
     dict(name="c11_l2_bytes_indef", props=["C11"], tier="thorough", cost=600,
          unit=[CV + "::read_bytes::<&[u8]> (indefinite)"],
          bound="5 symbolic bytes after a 0x5f head, chunk heads one-byte with length ≤ 1, symbolic available length", stubs=[]),
+    dict(name="c11_l2_text_indef_1_1", props=["C11"], tier="thorough", cost=1800, unit=[CV + "::read_text::<&[u8]> (indefinite)"],
+         bound="frame 61 a 61 b ff with a, b symbolic (two chunks of one byte)", stubs=[]),
+    dict(name="c11_l2_indef_framing", props=["C11"], tier="thorough", cost=1800, unit=[CV + "::read_text/read_bytes::<&[u8]> (indefinite)"],
+         bound="3 symbolic chunk heads from {40,60,5f,7f,ff,00,80}, symbolic available length", stubs=[]),
+    dict(name="c11_l3_array_indef_nested_break", props=["C11"], tier="thorough", cost=1800, unit=[CV + "::decode_array::<&[u8]> (indefinite)", CV + "::decode_value"],
+         bound="3 symbolic bytes from {01,f6,c1,81,ff} after a 9f head", stubs=[]),
     # ------------------------------------------------------------------ C07
     dict(name="c07_u64_dec5", props=["C07"], tier="quick", cost=30, unit=[PB + "::parse_u64_lit", PB + "::parse_uint_lit", "u64::from_str"],
          bound="decimal uint, 1..=5 symbolic digits", stubs=[]),
@@ -87,7 +93,7 @@ H = [
          bound="0xffffffffffffff+2 symbolic digits; 17-digit hex; -0x800000000000000+1 symbolic digit", stubs=[]),
     dict(name="c07_hex_decode4", props=["C07"], tier="quick", cost=20, unit=[PB + "::hex_decode", "data_encoding::HEXLOWER_PERMISSIVE"],
          bound="0..=4 symbolic bytes (any byte values)", stubs=[]),
-    dict(name="c07_b64_2", props=["C07"], tier="quick", cost=60, unit=[PB + "::base64_decode", "data_encoding::BASE64*"],
+    dict(name="c07_b64_2", props=["C07"], tier="thorough", cost=900, unit=[PB + "::base64_decode", "data_encoding::BASE64*"],
          bound="2 symbolic bytes (any byte values)", stubs=[]),
     dict(name="c07_b64_3", props=["C07"], tier="thorough", cost=600, unit=[PB + "::base64_decode"],
          bound="3 symbolic bytes (any byte values)", stubs=[]),
@@ -95,22 +101,33 @@ H = [
          bound="xy== / xyz= with x,y,z symbolic", stubs=[]),
     dict(name="c07_clean3", props=["C07"], tier="thorough", cost=600, unit=[PB + "::clean_prefixed_byte_string"],
          bound="0..=3 symbolic ASCII bytes (VT/FF excluded as don't-care)", stubs=[]),
+    dict(name="c07_b64_padforms", props=["C07"], tier="thorough", cost=1800, unit=[PB + "::base64_decode"],
+         bound="\"QQ\" + two characters from {=, A}", stubs=[]),
+    dict(name="c07_b64_4small", props=["C07"], tier="thorough", cost=1800, unit=[PB + "::base64_decode"],
+         bound="4 characters from the alphabet {=, A, g, /, _, Q}", stubs=[]),
     # ------------------------------------------------------------------ C15
     dict(name="c15_error_range_ascii6", props=["C15", "C05"], tier="quick", cost=30,
          unit=[PB + "::compute_error_range", PB + "::scan_token_end", PB + "::scan_token_start"],
          bound="ASCII input 0..=6 symbolic bytes, symbolic index ≤ len", stubs=[]),
-    dict(name="c15_convert_error_ascii4", props=["C15"], tier="quick", cost=120, timeout_quick=900,
+    dict(name="c15_convert_error_ascii4", props=["C15"], tier="thorough", cost=1800,
          unit=[PB + "::convert_pest_error", "pest::error::Error::new_from_pos", PB + "::compute_error_range"],
-         bound="ASCII input 0..=4 symbolic bytes, symbolic error position", stubs=[]),
-    dict(name="c15_error_range_utf8_boundary", props=["C15"], tier="quick", cost=30,
+         bound="ASCII input 0..=2 symbolic bytes, symbolic error position",
+         stubs=["create_enhanced_error_message (message text only) stubbed to an empty message"]),
+    dict(name="c15_error_range_utf8_boundary", props=["C15"], tier="quick", cost=12,
          unit=[PB + "::compute_error_range", PB + "::scan_token_end"],
          bound="2..=5 bytes, one 2-byte scalar at a symbolic position, rest ASCII, index on a char boundary",
-         stubs=[], finding="KF-C15-range-splits-scalar"),
+         stubs=[]),
     dict(name="c15_scan_bounds6", props=["C15", "C05"], tier="quick", cost=20,
          unit=[PB + "::scan_token_end", PB + "::scan_token_start"], bound="1..=6 symbolic bytes, symbolic position", stubs=[]),
-    dict(name="c15_span_position5", props=["C15"], tier="quick", cost=60,
-         unit=[PB + "::pest_span_to_position", PB + "::pest_span_to_ast_span", PB + "::position_from_ast_span", "pest::Span::new"],
-         bound="0..=5 symbolic bytes (ASCII incl. LF/CR, optional 2-byte scalar first), symbolic span on char boundaries", stubs=[]),
+    dict(name="c15_span_to_position4", props=["C15"], tier="quick", cost=10,
+         unit=[PB + "::pest_span_to_position", "pest::Span::new"],
+         bound="0..=4 symbolic bytes (ASCII incl. LF/CR, optional 2-byte scalar first), symbolic span on char boundaries", stubs=[]),
+    dict(name="c15_span_to_ast_span4", props=["C15"], tier="quick", cost=10,
+         unit=[PB + "::pest_span_to_ast_span", "pest::Span::new"],
+         bound="0..=4 symbolic bytes (ASCII incl. LF/CR, optional 2-byte scalar first), symbolic span on char boundaries", stubs=[]),
+    dict(name="c15_position_from_ast_span3", props=["C15"], tier="thorough", cost=1800,
+         unit=[PB + "::position_from_ast_span"],
+         bound="0..=3 symbolic bytes (ASCII incl. LF/CR, optional 2-byte scalar first), symbolic span", stubs=[]),
     # ------------------------------------------------------------------ C10
     dict(name="c10_kuhn_2x2", props=["C10"], tier="quick", cost=30,
          unit=[CB + "::CBORValidator::augment_single_entry_assignment"],
@@ -121,12 +138,21 @@ H = [
          unit=[CB + "::CBORValidator::find_unconsumed_map_entry", CB + "::CBORValidator::collect_unconsumed_map_entries_matching",
                CB + "::CBORValidator::is_unconsumed_map_entry"],
          bound="3 entries with symbolic (possibly equal) keys, symbolic ledger of ≤ 2 claimed indices, symbolic wanted key", stubs=[]),
+    dict(name="c10_ledger_wide", props=["C10"], tier="thorough", cost=1800,
+         unit=[CB + "::CBORValidator::collect_unconsumed_map_entries_matching", CB + "::CBORValidator::find_unconsumed_map_entry"],
+         bound="66 entries, one claimed index symbolic in 0..66", stubs=[]),
     # ------------------------------------------------------------------ C09 / C02
-    dict(name="c09_prelude_numeric_int", props=["C09", "C02"], tier="quick", cost=10,
+    dict(name="c09_prelude_int_uint_nint", props=["C09", "C02"], tier="quick", cost=40,
          unit=[CB + "::numeric_ident_matches_cbor_value", "cddl::validator::ident_numeric_kind", "is_ident_uint/nint_data_type", "token::lookup_ident"],
-         bound="Value::Integer over −2^64…2^64−1 (symbolic i128), 15 prelude names, schema without alias rules", stubs=[]),
-    dict(name="c09_prelude_numeric_float", props=["C09", "C02"], tier="quick", cost=10,
-         unit=[CB + "::numeric_ident_matches_cbor_value"], bound="Value::Float with symbolic bits; Null/Bool/Simple", stubs=[]),
+         bound="Value::Integer over −2^64…2^64−1 (symbolic i128); names uint, nint, int; schema without alias rules", stubs=[]),
+    dict(name="c09_prelude_integer_unsigned_number", props=["C09", "C02"], tier="quick", cost=40,
+         unit=[CB + "::numeric_ident_matches_cbor_value"], bound="Value::Integer over −2^64…2^64−1; names integer, unsigned, number", stubs=[]),
+    dict(name="c09_prelude_int_not_float", props=["C09"], tier="quick", cost=80,
+         unit=[CB + "::numeric_ident_matches_cbor_value"], bound="Value::Integer over −2^64…2^64−1; six float names, tstr, bool, bstr, nil", stubs=[]),
+    dict(name="c09_prelude_float_side", props=["C09", "C02"], tier="quick", cost=80,
+         unit=[CB + "::numeric_ident_matches_cbor_value"], bound="Value::Float with symbolic bits; 12 numeric names", stubs=[]),
+    dict(name="c09_prelude_non_numeric_values", props=["C09"], tier="quick", cost=30,
+         unit=[CB + "::numeric_ident_matches_cbor_value"], bound="Null / Bool / Simple(symbolic)", stubs=[]),
     dict(name="c09_prelude_bignum", props=["C09", "C02"], tier="quick", cost=10,
          unit=[CB + "::is_bignum_value", "cddl::validator::ident_accepts_bignum_tag"], bound="symbolic tag number (u64), bytes / non-bytes content", stubs=[]),
     dict(name="c09_prelude_classes", props=["C09"], tier="quick", cost=10,
@@ -146,24 +172,34 @@ H = [
          bound="text of 0..=2 symbolic printable ASCII bytes without '\"' and '\\'", stubs=[]),
     dict(name="c06_text_render_special2", props=["C06"], tier="quick", cost=30, unit=["<cddl::token::Value as Display>::fmt (TEXT)"],
          bound="text of 1..=2 symbolic printable ASCII bytes, at least one '\"' or '\\'", stubs=[], finding="KF-C06-text-not-escaped"),
-    dict(name="c06_b16_roundtrip2", props=["C06"], tier="quick", cost=60, unit=["<cddl::token::ByteValue as Display>::fmt (B16)", PB + "::hex_decode"],
+    dict(name="c06_b16_roundtrip2", props=["C06"], tier="thorough", cost=900, unit=["<cddl::token::ByteValue as Display>::fmt (B16)", PB + "::hex_decode"],
          bound="0..=2 symbolic bytes", stubs=[]),
-    dict(name="c06_b64_roundtrip1", props=["C06"], tier="quick", cost=60, unit=["<cddl::token::ByteValue as Display>::fmt (B64)", PB + "::base64_decode"],
+    dict(name="c06_b64_roundtrip1", props=["C06"], tier="thorough", cost=900, unit=["<cddl::token::ByteValue as Display>::fmt (B64)", PB + "::base64_decode"],
          bound="1 symbolic byte", stubs=[]),
-    dict(name="c06_int_roundtrip", props=["C06"], tier="quick", cost=60, unit=["<cddl::token::Value as Display>::fmt (UINT, INT)", PB + "::parse_uint_lit", PB + "::parse_int_lit"],
-         bound="0 ≤ u < 1000, −1000 < i < 0", stubs=[]),
+    dict(name="c06_uint_roundtrip2", props=["C06"], tier="quick", cost=15, unit=["<cddl::token::Value as Display>::fmt (UINT)", PB + "::parse_uint_lit"],
+         bound="0 ≤ u < 100", stubs=[]),
+    dict(name="c06_b16_roundtrip1", props=["C06"], tier="thorough", cost=1800, unit=["<cddl::token::ByteValue as Display>::fmt (B16)", PB + "::hex_decode"],
+         bound="1 symbolic byte", stubs=[]),
+    dict(name="c06_occur_render", props=["C06"], tier="thorough", cost=1800, unit=["<cddl::ast::Occur as Display>::fmt", PB + "::parse_uint_lit"],
+         bound="Occur::Exact with optional bounds < 100", stubs=[]),
+    # ------------------------------------------------------------------ C03 (E1 part)
+    dict(name="c03_control_table", props=["C03"], tier="quick", cost=150, unit=["cddl::token::lookup_control_from_str", "<cddl::token::ControlOperator as Display>::fmt"],
+         bound="index symbolic over the 37 registered control names", stubs=[]),
     # ------------------------------------------------------------------ C05
     dict(name="c05_alloc_read_bytes", props=["C05"], tier="quick", cost=2, unit=[CV + "::read_bytes::<&[u8]>"],
-         bound="announced length n fully symbolic usize ≥ 2, 1-byte reader", stubs=[], finding="KF-C05-alloc-from-wire-length"),
-    dict(name="c05_alloc_read_text", props=["C05"], tier="quick", cost=2, unit=[CV + "::read_text::<&[u8]>"],
-         bound="announced length n fully symbolic usize ≥ 2, 1-byte reader", stubs=[], finding="KF-C05-alloc-from-wire-length"),
+         bound="announced length n fully symbolic usize ≥ 2, 1-byte reader", stubs=[]),
     dict(name="c05_alloc_array_map", props=["C05"], tier="quick", cost=2, unit=[CV + "::decode_array::<&[u8]>", CV + "::decode_map::<&[u8]>"],
-         bound="announced count n fully symbolic usize ≥ 1, empty reader", stubs=[], finding="KF-C05-alloc-from-wire-length"),
+         bound="announced count n fully symbolic usize ≥ 1, empty reader", stubs=[]),
     dict(name="c05_literal_decoders_total", props=["C05"], tier="quick", cost=60, unit=[PB + "::parse_u64_lit", PB + "::parse_int_lit", PB + "::parse_uint_lit"],
          bound="any ASCII text of 0..=4 symbolic bytes (not only grammar-valid spellings)", stubs=[]),
 ]
 
 BY_NAME = {h["name"]: h for h in H}
+
+
+for _h in H:
+    _h.setdefault("timeout_quick", 1500)
+    _h.setdefault("timeout_thorough", 3600)
 
 
 def for_property(pid, tier):
